@@ -289,6 +289,23 @@ fn small_tree(m: &Model, a: u16, b: u16, c: u16, d: u16) -> Option<Call> {
             break;
         }
     }
+    // "the same sub-graph merged again": in one merge of four a right vertex that lands on a left
+    // vertex holding a datum (unread or already read) carries exactly the same bytes
+    if d & 3 == 1 {
+        let mut mapped: Vec<Option<usize>> = vec![Some(left)];
+        for i in 1..nodes.len() {
+            let gv = mapped[nodes[i].parent.unwrap()].and_then(|p| m.kid(p, nodes[i].label.as_ref().unwrap())).filter(|t| m.present(*t));
+            mapped.push(gv);
+        }
+        for (i, gv) in mapped.iter().enumerate() {
+            if let Some(bytes) = gv.and_then(|v| m.get(v).data.clone()) {
+                if (d >> (2 + i)) & 1 == 0 {
+                    nodes[i].data = Some(bytes);
+                    nodes[i].read = false;
+                }
+            }
+        }
+    }
     Some(Call::Merge { h: TreeSpec { cap: hcap, nodes, extras: vec![], pairs_first: false, segment: 0 }, left })
 }
 
